@@ -173,7 +173,8 @@ func c18Variants(p Path, rng *rand.Rand, max int) []string {
 	// leading / trailing spaces, omitted `$`
 	emit(" " + p.Text)
 	emit(p.Text + "  ")
-	if len(p.Steps) > 0 {
+	if len(p.Steps) > 0 && p.Steps[0].Kind != "func" && p.Steps[0].Kind != "agg" {
+		// (a function is not a name: `f()` without `$.` is not a spelling the grammar offers)
 		first := p.Steps[0]
 		switch {
 		case strings.HasPrefix(first.Text, "."):
